@@ -384,6 +384,36 @@ def body_multidict(I, X, ops=("add", "pop"), cls="MultiDict"):
     return ok, {"trace": trace, "final": md_items(I, md)}
 
 
+def body_immutable_hash(I, X, cls="ImmutableMultiDict", shape="swap"):
+    """equality and hashing of the immutable containers are consistent: containers that
+    compare equal hash equal (whatever the insertion order)"""
+    from werkzeug import datastructures as ds
+
+    klass = getattr(ds, cls)
+    k0, k1, k2 = sym_char(X, "k0"), sym_char(X, "k1"), sym_char(X, "k2")
+    if shape == "swap":
+        pa, pb = [(k0, "v0"), (k1, "v1")], [(k1, "v1"), (k0, "v0")]
+    elif shape == "three":
+        pa, pb = [(k0, "v0"), (k1, "v1"), (k2, "v2")], [(k2, "v2"), (k0, "v0"), (k1, "v1")]
+    else:
+        pa, pb = [(k0, "v0"), (k1, "v1")], [(k2, "v0"), (k1, "v1")]
+    if cls != "ImmutableMultiDict":
+        # plain dict semantics: a repeated key keeps the last value; keep keys distinct
+        X.assume(pnot(peq(k0, k1)))
+        X.assume(pnot(peq(k1, k2)))
+        X.assume(pnot(peq(k0, k2)))
+    a = I.call(klass, (pa,))
+    b = I.call(klass, (pb,))
+    eq = I.call(a.__eq__, (b,))
+    eq = False if eq is NotImplemented else bool(eq)
+    ha = I.call(hash, (a,))
+    hb = I.call(hash, (b,))
+    same = ha == hb
+    same = bool(same)
+    ok = (not eq) or same
+    return ok, {"equal": bool(eq), "hash_equal": same}
+
+
 def body_md_copy(I, X, cls="MultiDict", how="copy", mutate="add"):
     """copies are independent of the original: mutating a copy (also in place, through the
     lists it hands out) leaves the original's content unchanged, and vice versa"""
@@ -472,6 +502,10 @@ def body_immutable(I, X, cls="ImmutableMultiDict", op="add"):
 def obligations(tier, seed):
     out = []
     quick = tier == "quick"
+    for cls in ("ImmutableMultiDict", "ImmutableDict", "ImmutableTypeConversionDict"):
+        for shape in ("swap", "three", "other"):
+            out.append({"name": f"immutable_hash[{cls},{shape}]", "body": "body_immutable_hash", "params": {"cls": cls, "shape": shape},
+                        "opts": {"budget_s": 600, "ctx": {"max_cp": 0x7F}}})
     hs_len, other_len = (3, 2) if quick else (4, 3)
     seqs = list(itertools.product(HS_OPS, repeat=hs_len - 1 if quick else hs_len))
     if quick:
